@@ -344,7 +344,7 @@ def _run_check(prop, tier, spec, wd, t0):
             results += run_rapid_leg(prop, i, leg, wd, built[key])
         elif kind == "fuzz":
             import fuzzleg
-            r, inc = fuzzleg.run(prop, i, leg, wd, key)
+            r, inc = fuzzleg.run(prop, i, leg, wd, built[key])
             results += r
             inconclusive += inc
     results += run_regress(prop, spec, wd, built)
@@ -382,6 +382,11 @@ def run_regress(prop, spec, wd, built):
                       "VERIF_SCRATCH": os.path.join(od, "scratch"), "GORACE": "halt_on_error=1 exitcode=66"})
         for k, v in leg.get("env", {}).items():
             env[k] = str(v)
+        if leg.get("vworker"):
+            vw = os.path.join(wd, "vworker")
+            if not os.path.exists(vw) and not build_cmd("./cmd/vworker", vw, overlay=True, tags="verif verifov"):
+                continue
+            env["VERIF_VWORKER"] = vw
         lp = os.path.join(od, "log.txt")
         with open(lp, "w") as lf:
             p = subprocess.Popen([built[key], "-test.run", "^%s$" % test, "-test.timeout", "120s"],
